@@ -88,6 +88,28 @@ var e2Contracts = map[string]extContract{
 	"iface:hash.Hash.Size":              {"no precondition", nil},
 	"iface:error.Error":                 {"no precondition on a non-nil error", nil},
 	"iface:fmt.Stringer.String":         {"no precondition", nil},
+	// further callees without a panic precondition that hardening and error-reporting changes bring in
+	"iface:crypto/cipher.Block.BlockSize":      {"no precondition (a nil interface receiver is the nil-dereference class)", nil},
+	"iface:crypto/cipher.BlockMode.BlockSize":  {"no precondition", nil},
+	"iface:hash.Hash.BlockSize":                {"no precondition", nil},
+	"fmt.Errorf":                               {"no precondition", nil},
+	"fmt.Sprint":                               {"no precondition", nil},
+	"errors.New":                               {"no precondition", nil},
+	"errors.Is":                                {"no precondition", nil},
+	"errors.As":                                {"panics only if target is not a non-nil pointer to an error type: a programming error vet reports, not input dependent", nil},
+	"errors.Unwrap":                            {"no precondition", nil},
+	"errors.Join":                              {"no precondition", nil},
+	"github.com/pkg/errors.WithMessage":        {"no precondition (nil error gives nil)", nil},
+	"github.com/pkg/errors.WithMessagef":       {"no precondition (nil error gives nil)", nil},
+	"github.com/pkg/errors.WithStack":          {"no precondition (nil error gives nil)", nil},
+	"github.com/pkg/errors.Cause":              {"no precondition", nil},
+	"bytes.Clone":                              {"no precondition", nil},
+	"bytes.Compare":                            {"no precondition", nil},
+	"bytes.HasPrefix":                          {"no precondition", nil},
+	"bytes.HasSuffix":                          {"no precondition", nil},
+	"strconv.Itoa":                             {"no precondition", nil},
+	"strconv.FormatUint":                       {"base 10 / 16 constants only: no input-dependent precondition", nil},
+	"strconv.FormatInt":                        {"base 10 / 16 constants only: no input-dependent precondition", nil},
 }
 
 // remAtom returns the atom for (l % m), numbered structurally like the BinOp REM case of lf0.
